@@ -339,8 +339,12 @@ fn main() {
     // length 1..=L
     let lmax6: usize = tier.pick(2600, 10000);
     run.bound("S6b_dropped_lengths", format!("1..={}", lmax6));
-    run.par("S6b decision shapes at every dropped length", lmax6, |li| {
-        let l = li + 1;
+    // ... and a ladder of far longer dropped parts (sizes at which a digit-count ESTIMATE first goes wrong are set
+    // by the estimate's error, not by any literal in the code)
+    let ladder: Vec<usize> = tier.pick(vec![3000, 5000, 7100, 8000, 10000, 12000, 16500, 20000], vec![12000, 16500, 20000, 25000, 33000, 50000, 70000, 100000]);
+    run.bound("lmax6_ladder", json!(ladder));
+    run.par("S6b decision shapes at every dropped length", lmax6 + ladder.len(), |li| {
+        let l = if li < lmax6 { li + 1 } else { ladder[li - lmax6] };
         let mut t = Tally::default();
         for tail in decision_tails(l) {
             for (head, sign) in [("7", 1), ("86", -1)] {
@@ -441,6 +445,47 @@ fn main() {
                     if let Some(v) = check(Op::WithScaleRound, &xb, &x, x.s as i64 - k, m) {
                         run.report(v);
                     }
+                }
+            }
+        }
+        t
+    });
+    // S11: re-scaling across the whole gap alphabet in both directions (extension by g digits must keep the value;
+    // dropping g written-out digits must give back the coefficient), g over every gap 0..300 and both sides of
+    // each power-of-ten algorithm switch (19/20, 590, 16*590 = 9440, 65536)
+    let g11 = gaps();
+    run.bound("S11_gaps", json!(g11));
+    run.par("S11 extension and truncation across the gap alphabet", g11.len(), |gi| {
+        let g = g11[gi] as i128;
+        let mut t = Tally::default();
+        for n in [BigInt::from(1), BigInt::from(-15), BigInt::from(7), pow10(19) - 1, BigInt::from(-3) - pow10(20)] {
+            for s in [0i128, 3, -2] {
+                let x = Dec { n: n.clone(), s };
+                let xb = bd(&x);
+                t.states += 1;
+                for m in MODES {
+                    t.transitions += 1;
+                    t.nontrivial += 1;
+                    if let Some(v) = check(Op::WithScaleRound, &xb, &x, (s + g) as i64, m) {
+                        run.report(v);
+                    }
+                }
+                t.transitions += 1;
+                if let Some(v) = check(Op::WithScale, &xb, &x, (s + g) as i64, Mode::Down) {
+                    run.report(v);
+                }
+                // the same value with g written-out zeros, brought back
+                let y = Dec { n: &n * pow10(g as u64) + if g > 0 { 1 } else { 0 }, s: s + g };
+                let yb = bd(&y);
+                for m in MODES {
+                    t.transitions += 1;
+                    if let Some(v) = check(Op::WithScaleRound, &yb, &y, s as i64, m) {
+                        run.report(v);
+                    }
+                }
+                t.transitions += 1;
+                if let Some(v) = check(Op::WithScale, &yb, &y, s as i64, Mode::Down) {
+                    run.report(v);
                 }
             }
         }
